@@ -268,7 +268,7 @@ impl Check for C03 {
         tier.pick(Duration::from_secs(200), Duration::from_secs(1500))
     }
     fn required_counters(&self, _tier: Tier) -> Vec<&'static str> {
-        vec!["uploads:all-conditions-hold", "uploads:quote-for-other-address", "uploads:not-paid-on-chain", "uploads:payee-not-close", "unpaid-uploads", "rpc-calls", "realnet:uploads:valid-payment", "realnet:uploads:faulty-payment"]
+        vec!["uploads:all-conditions-hold", "uploads:quote-for-other-address", "uploads:not-paid-on-chain", "uploads:payee-not-close", "unpaid-uploads", "rpc-calls", "proof-presented-twice:payee-left-the-routing-table-since-the-first-presentation", "realnet:uploads:valid-payment", "realnet:uploads:faulty-payment"]
     }
     fn lane_cases(&self, tier: Tier) -> u64 {
         tier.pick(6, 48)
@@ -424,6 +424,60 @@ impl Check for C03 {
                             json!({"held": if pad_first { "scratchpad" } else { "transactions" }, "conditions": format!("{conds:?}")}),
                         );
                     }
+                }
+            }
+        }
+        // ---- one proof presented twice: what made the payment acceptable must hold at the moment of *each* presentation.
+        //      First with content the node turns down after the payment check (a scratchpad not signed by its owner), so
+        //      nothing is stored; then a payee leaves the routing table (or the quote runs out); then the same proof with
+        //      acceptable content
+        if cx.rng.gen_bool(0.35) {
+            let owner = gen::bls_sk(&mut cx.rng);
+            let good = gen::pad(&owner, cx.rng.gen_range(1..100), &gen::bytes_r(&mut cx.rng, 1, 60), 0);
+            let mut raw = gen::RawPad::from_pad(&good);
+            raw.sign(&gen::bls_sk(&mut cx.rng));
+            let bad = raw.to_pad();
+            let key = gen::pad_key(&good);
+            let by_time = cx.index % 40 == 17;
+            let stub = sim.stub.as_ref().expect("stub");
+            let mut proof = build_proof(&mut cx.rng, &env, good.address().xorname(), 3, Conds::all(), stub);
+            if by_time {
+                // every quote re-issued with three seconds left to run
+                let ts = SystemTime::now() - Duration::from_secs(3597);
+                for (enc, q) in proof.peer_quotes.iter_mut() {
+                    let pid = enc.to_peer_id().expect("peer id");
+                    let kp = if pid == PeerId::from(env.node_kp.public()) { &env.node_kp } else { env.close.iter().find(|k| PeerId::from(k.public()) == pid).expect("payee key") };
+                    *q = gen::quote_for(kp, q.content, ts, &mut cx.rng);
+                    stub.set_paid(q.hash().0, 1_000, true);
+                }
+            }
+            let first = gen::record(key.clone(), try_serialize_record(&(proof.clone(), bad), RecordKind::ScratchpadWithPayment).expect("ser").to_vec());
+            let second = gen::record(key.clone(), try_serialize_record(&(proof.clone(), good), RecordKind::ScratchpadWithPayment).expect("ser").to_vec());
+            let n2 = node.clone();
+            let r1 = sim.run_op(async move { n2.validate_and_store_record(first).await });
+            let stored1 = sim.get_local(0, &key).is_some() || sim.has_key(0, &key);
+            cx.eval();
+            if stored1 {
+                cx.violation("scratchpad-not-signed-by-its-owner-stored", format!("first presentation: {r1:?}"), json!({"history": "proof presented twice"}));
+            } else {
+                let what = if by_time {
+                    std::thread::sleep(Duration::from_secs(4));
+                    "quote-expired-since-the-first-presentation"
+                } else {
+                    let me = PeerId::from(env.node_kp.public());
+                    let leaver = proof.peer_quotes.iter().filter_map(|(e, _)| e.to_peer_id().ok()).find(|p| *p != me).expect("another payee");
+                    let _g = sim.rt.enter();
+                    sim.nodes[0].drv.verif_remove_peer(leaver);
+                    "payee-left-the-routing-table-since-the-first-presentation"
+                };
+                sim.collect();
+                let n2 = node.clone();
+                let r2 = sim.run_op(async move { n2.validate_and_store_record(second).await });
+                cx.eval();
+                cx.count(&format!("proof-presented-twice:{what}"));
+                let stored2 = sim.get_local(0, &key).is_some() || sim.has_key(0, &key);
+                if stored2 || matches!(r2, Some(Ok(()))) {
+                    cx.violation(format!("stored-without-valid-payment:{what}"), format!("the proof was acceptable when first presented (content refused: {r1:?}); presented again after that, the upload was {} (result {r2:?})", if stored2 { "stored" } else { "accepted" }), json!({"history": ["paid proof + scratchpad not signed by its owner", what, "same proof + valid scratchpad"]}));
                 }
             }
         }
